@@ -18,6 +18,7 @@ import asyncio
 import itertools
 import json
 import os
+import signal
 
 from common import sx, cps, parse_sx, err_name, VERIF
 
@@ -427,11 +428,23 @@ async def _drive(side, script, stubs, tail_polls):
     return log, fin
 
 
+CASE_TIMEOUT = 10.0      # wall seconds for one case (a normal case takes about a millisecond)
+
+
+class ReaderHang(Exception):
+    pass
+
+
+def _on_alarm(signum, frame):
+    raise ReaderHang(f'the reader did not give control back within {CASE_TIMEOUT} s of wall time')
+
+
 class Runner:
     def __init__(self):
         from vloop import VirtualLoop
         self.loop = VirtualLoop()
         self.n = 0
+        self.hangs = 0
 
     def drive(self, side, script, stubs, tail_polls):
         self.n += 1
@@ -440,7 +453,18 @@ class Runner:
             from vloop import VirtualLoop
             self.loop = VirtualLoop()
         self.loop.tasks_created.clear()
-        return self.loop.run(_drive(side, script, stubs, tail_polls))
+        signal.signal(signal.SIGALRM, _on_alarm)
+        signal.setitimer(signal.ITIMER_REAL, CASE_TIMEOUT)
+        try:
+            return self.loop.run(_drive(side, script, stubs, tail_polls))
+        except ReaderHang:
+            self.hangs += 1
+            self.close()                                # the loop may be in any state: start over
+            from vloop import VirtualLoop
+            self.loop = VirtualLoop()
+            raise
+        finally:
+            signal.setitimer(signal.ITIMER_REAL, 0)
 
     def close(self):
         try:
@@ -523,8 +547,11 @@ def evaluate(ctx, runner, case, model_line_sink=None):
     res['out'] = out
     if out != expected:
         i = next((i for i, (a, b) in enumerate(zip(out, expected)) if a != b), min(len(out), len(expected)))
+        g, x = (out[i] if i < len(out) else 'nothing'), (expected[i] if i < len(expected) else 'nothing')
+        j = next((j for j, (a, b) in enumerate(zip(g, x)) if a != b), min(len(g), len(x)))
+        j = max(0, j - 30) if max(len(g), len(x)) > 90 else 0
         res['fail'].append(f'{side.name}: emitted {len(out)} message(s), expected {len(expected)}; first difference at #{i}: '
-                           f'got {out[i][:70] if i < len(out) else "nothing"} expected {expected[i][:70] if i < len(expected) else "nothing"}')
+                           f'got {"…" * (j > 0)}{g[j:j + 90]} expected {"…" * (j > 0)}{x[j:j + 90]}')
     res['fail'] += bad
     if closes != (1 if has_logout else 0):
         res['fail'].append(f'{side.name}: close signalled {closes} time(s), logout delivered: {has_logout}')
@@ -737,7 +764,7 @@ def classify(side, frames, cuts, ctx):
 def gen_cases(ctx, side, quick):
     """yield (label, hl) for the well-formed part"""
     rng = ctx.rng
-    n_short = (40 if side.name == 'soup' else 10) if quick else (120 if side.name == 'soup' else 30)
+    n_short = (40 if side.name == 'soup' else 12) if quick else (200 if side.name == 'soup' else 50)
     cap2 = (10**9 if side.name == 'soup' else 350) if quick else (10**9 if side.name == 'soup' else 4000)
     cap3 = 0 if quick else (2500 if side.name == 'soup' else 1500)
     for si in range(n_short):
@@ -903,8 +930,55 @@ def run(ctx):
                        'with few/many/zone/bursty segmentations, whole-stream and byte-wise delivery; distinct = distinct (messages, script, stubs); '
                        'each case executed on the real reader under virtual time, the model folded over the observed data/deserialize event log; '
                        'malformed streams: agreement model/implementation only')
-    executed = []          # (side, case, res, replay-hl)
+    ctx.notes += [
+        'C03 model boundary: the callbacks given to the reader return normally (a raising on_msg_coro, which also stops the reader, is not modelled)',
+        'C03 model boundary: a FIX frame is its byte slice; field-level decoding is the library\'s Message.from_bytes, applied by the harness to the frames the model cuts',
+        'C03 tie: one model tick = one observed deserialize() call; data/tick order is taken from the event log of the real run under virtual time',
+    ]
+    executed = []          # (side, case, res)
     shrinks = [0]
+    has_deser = [all(hasattr(sd.reader_cls(), 'deserialize') for sd in (SoupSide, FixSide))]
+
+    def flush():
+        """model answers for the executed cases in one batch, then the correspondence"""
+        todo = [(s_, c_, r_) for s_, c_, r_ in executed if r_.get('log') is not None]
+        del executed[:]
+        if not ctx.driver.available or not has_deser[0] or not todo:
+            return
+        lines = [model_line(s_, r_['log']) for s_, c_, r_ in todo]
+        try:
+            answers = ctx.driver.ask(lines)
+        except Exception as e:  # noqa
+            ctx.disagree(f'model driver failed: {e!r:.200}', {'kind': 'driver'})
+            answers = []
+        for (s_, c_, r_), a in zip(todo, answers):
+            try:
+                correspond(ctx, s_, r_, a, c_)
+            except Exception as e:  # noqa
+                ctx.disagree(f'comparing model and implementation raised {err_name(e)}: {e!r:.100}', c_)
+
+    def keep(item):
+        executed.append(item)
+        if len(executed) >= 20000:
+            flush()
+
+    fix_frames_seen = set()
+
+    def check_wf_hypothesis():
+        """every FIX frame given to the oracle satisfies the Lean hypothesis `wfFixFrame` of the C03_fix_* theorems"""
+        frames = sorted(fix_frames_seen)
+        fix_frames_seen.clear()
+        if not ctx.driver.available or not frames:
+            return
+        try:
+            ans = ctx.driver.ask([f'fix.wf x{f}' for f in frames])
+        except Exception as e:  # noqa
+            ctx.disagree(f'model driver failed: {e!r:.200}', {'kind': 'driver'})
+            return
+        ctx.count('fix:frames-checked-against-wfFixFrame', len(frames))
+        for f, a in zip(frames, ans):
+            if a != 'true':
+                ctx.disagree(f'a generated FIX frame is outside the theorems\' hypothesis: fix.wf = {a}', {'kind': 'wf', 'proto': 'fix', 'frame': f})
 
     def do_case(label, hl, case=None):
         side = SIDES[hl['proto']] if hl else SIDES[case['proto']]
@@ -923,9 +997,11 @@ def run(ctx):
         if hl:
             frames = [bytes.fromhex(x) for x in case['frames']]
             classify(side, frames, case.get('cuts', []), ctx)
+        if side.name == 'fix':
+            fix_frames_seen.update(case.get('frames') or [side.frame(side.undesc(d)).hex() for d in case['msgs']])
         if res['fail']:
             rep = case
-            if hl and shrinks[0] < 3:
+            if hl and shrinks[0] < 3 and runner.hangs == 0:
                 shrinks[0] += 1
 
                 def fails(h):
@@ -936,7 +1012,7 @@ def run(ctx):
                 if r2['fail']:
                     rep, res = c2, r2
             ctx.violation(res['fail'][0], dict(rep, what=res['fail']))
-        executed.append((side, case, res))
+        keep((side, case, res))
 
     # ---- corpus first
     for name, c in corpus_cases():
@@ -945,44 +1021,53 @@ def run(ctx):
         elif c.get('kind') == 'malformed':
             r = run_malformed(ctx, runner, c)
             if r:
-                executed.append((SIDES[c['proto']], c, r))
+                keep((SIDES[c['proto']], c, r))
                 ctx.case(json.dumps(c['script']), nontrivial=True, sample_every=0)
                 ctx.count(f'{c["proto"]}:corpus-malformed')
     # ---- generated well-formed cases
     for side in (SoupSide, FixSide):
         for label, hl in gen_cases(ctx, side, quick):
+            if runner.hangs >= 2:          # every further case would cost CASE_TIMEOUT: the failing inputs are recorded, stop here
+                ctx.notes.append('generation cut short: the reader hung (busy loop) on two cases')
+                break
             do_case(label, hl)
     # ---- malformed streams
     for side in (SoupSide, FixSide):
         for c in gen_malformed(ctx, side, 300 if quick else 4000):
+            if runner.hangs >= 2:
+                break
             r = run_malformed(ctx, runner, c)
             if r:
-                executed.append((side, c, r))
+                keep((side, c, r))
                 ctx.case(json.dumps(c['script']), nontrivial=True, sample_every=0)
                 ctx.count(f'{side.name}:malformed:{c["how"]}:' + ('stopped' if r['fin'].get('stopped') else 'alive'))
     runner.close()
-    # ---- model answers in one batch, then the correspondence
-    if ctx.driver.available:
-        todo = [(s, c, r) for s, c, r in executed if r.get('log') is not None]
-        lines = [model_line(s, r['log']) for s, c, r in todo]
-        try:
-            answers = ctx.driver.ask(lines)
-        except Exception as e:  # noqa
-            ctx.disagree(f'model driver failed: {e!r:.200}', {'kind': 'driver'})
-            answers = []
-        for (s, c, r), a in zip(todo, answers):
-            try:
-                correspond(ctx, s, r, a, c)
-            except Exception as e:  # noqa
-                ctx.disagree(f'comparing model and implementation raised {err_name(e)}: {e!r:.100}', c)
-    else:
+    flush()
+    check_wf_hypothesis()
+    if not ctx.driver.available:
         ctx.notes.append('model driver unavailable: oracle only')
+    if not has_deser[0]:
+        ctx.notes.append('the reader class has no deserialize() to observe: correspondence skipped, oracle only (weaker tie)')
 
 
 def replay(ctx, path):
     r = json.load(open(path))
     rep = r.get('replay') or (r.get('no_longer_checks') or [{}])[-1].get('case') or r
     ctx.cov['rule'] = 'replay of ' + path
+    if rep.get('kind') == 'wf':
+        a = ctx.driver.ask([f'fix.wf x{rep["frame"]}'])[0]
+        print('frame    :', bytes.fromhex(rep['frame']))
+        print('fix.wf   :', a)
+        ctx.case(rep['frame'])
+        ctx.case('replay-marker')
+        if a != 'true':
+            ctx.disagree('a generated FIX frame is outside the theorems\' hypothesis', rep)
+        return
+    if 'proto' not in rep or 'script' not in rep:
+        print('nothing to replay in', path)
+        ctx.case('replay-marker')
+        ctx.case('replay-marker-2')
+        return
     runner = Runner()
     side = SIDES[rep['proto']]
     ctx.case(json.dumps(rep.get('script')), nontrivial=True)
